@@ -20,8 +20,8 @@ ASSUMPTIONS = [
 class _In:
     encoding = "latin-1"
 
-    def __init__(self, data, errs=0):
-        self.data, self.pos, self.errs = data, 0, errs
+    def __init__(self, data, errs=0, encoding="latin-1"):
+        self.data, self.pos, self.errs, self.encoding = data, 0, errs, encoding
 
     def read(self, n):
         if self.errs > 0:
@@ -37,10 +37,10 @@ class _Out(io.StringIO):
         return 1
 
 
-def _query(data, cb=True, errs=0):
+def _query(data, cb=True, errs=0, enc="latin-1"):
     from curtsies.window import CursorAwareWindow
     got = []
-    i = _In(data, errs)
+    i = _In(data, errs, enc)
     out = _Out()
     w = CursorAwareWindow(out_stream=out, in_stream=i, extra_bytes_callback=(got.append if cb else None))
     r = w.get_cursor_position()
@@ -50,12 +50,12 @@ def _query(data, cb=True, errs=0):
 REPORT = re.compile(r"(\x1b\[|\x9b)\d+;\d+R")
 
 
-def parse_case(extra, csi, r, c, trail, errs=0, cb=True):
+def parse_case(extra, csi, r, c, trail, errs=0, cb=True, enc="latin-1"):
     """-> '' if the contract of get_cursor_position holds on this scripted stream, else a description"""
     report = csi + "%d;%dR" % (r, c)
     data = extra + report + trail
     try:
-        res, eb, rest, written = _query(data, cb=cb, errs=errs)
+        res, eb, rest, written = _query(data, cb=cb, errs=errs, enc=enc)
     except ValueError as e:
         if not cb and extra:
             return ""       # required: ValueError when bytes precede the report and there is no callback
@@ -66,8 +66,8 @@ def parse_case(extra, csi, r, c, trail, errs=0, cb=True):
         return f"no callback and preceding bytes {extra!r}: expected ValueError, returned {res}"
     if res != (r - 1, c - 1):
         return f"returned {res}, terminal reported ({r},{c})"
-    if eb != extra.encode("latin-1"):
-        return f"callback got {eb!r}, preceding input was {extra.encode('latin-1')!r}"
+    if eb != extra.encode(enc):
+        return f"callback got {eb!r}, preceding input was {extra.encode(enc)!r} (a text stream whose encoding is {enc})"
     if rest != trail:
         return f"unread remainder {rest!r}, expected {trail!r}"
     if written != "\x1b[6n":
@@ -103,6 +103,22 @@ def bounded_parse(check, tier):
                         d = parse_case(**case)
                         if d:
                             s.fail("C18.get_cursor_position.parse", case, d, replay={"kind": "suite", "module": "props.C18", "case": case})
+    # the input is a text stream: what the callback gets is the preceding characters in the stream's own encoding, for every encoding
+    # (the 8-bit introducer is one character but two bytes in utf-8, and has no ascii encoding at all: it is part of the report, not
+    # of what precedes it)
+    for enc in ("utf-8", "ascii", "cp1252", "utf-16-le"):
+        for extra in ("", "a", "ab;", "\x1b", "\x1b[A", "1;1", "\x9b", "\x9b5;", "é", "a\x9b", "\u20ac"):
+            try:
+                extra.encode(enc)
+            except UnicodeEncodeError:
+                continue        # such a stream cannot have delivered this character
+            for csi in ("\x1b[", "\x9b"):
+                for trail in ("", "xyz"):
+                    case = dict(extra=extra, csi=csi, r=7, c=21, trail=trail, enc=enc)
+                    s.case(("enc", enc, extra, csi, trail), sample=case)
+                    d = parse_case(**case)
+                    if d:
+                        s.fail("C18.get_cursor_position.parse", case, d, replay={"kind": "suite", "module": "props.C18", "case": case})
     for errs in range(0, 6):
         for extra in ("", "ab", "\x1b[A"):
             case = dict(extra=extra, csi="\x1b[", r=3, c=4, trail="q", errs=errs)
